@@ -159,6 +159,32 @@ def build(s):
         return lg
     if k == "complex":
         return complex(_f(s["v"][0]), _f(s["v"][1]))
+    if k == "qvector":
+        from quantem.core.datastructures.vector import Vector
+
+        nf = s["nf"]
+        v = Vector.from_shape(tuple(s["shape"]), fields=[f"f{j}" for j in range(nf)],
+                              units=[f"u{j}" for j in range(nf)], name=s.get("name", "vec"))
+        g = np.random.Generator(np.random.PCG64(s.get("fill", 0)))
+        for q, idx in enumerate(np.ndindex(*s["shape"])):
+            if g.random() < s.get("unset", 0.3):
+                continue
+            rows = int(g.integers(0, 4))
+            v[idx if len(idx) > 1 else idx[0]] = np.round(g.uniform(-9, 9, (rows, nf)), 3)
+        if s.get("meta"):
+            v.metadata["note"] = "m"
+            v.metadata["n"] = 3
+        return v
+    if k == "qdataset":
+        import quantem.core.datastructures as qd
+
+        cls = getattr(qd, s["cls"])
+        arr = nd_from_spec({"dtype": s["dtype"], "shape": s["shape"], "fill": s.get("fill", 0),
+                            "special": False})
+        nd_ = arr.ndim
+        return cls.from_array(arr, name=s.get("name", "ds"), origin=[0.5 * q for q in range(nd_)],
+                              sampling=[1.0 + 0.25 * q for q in range(nd_)],
+                              units=[f"u{q}" for q in range(nd_)], signal_units="e")
     if k == "obj" and s["cls"] == "Hybrid":
         o = qsim_models.Hybrid()
         torch.manual_seed(int(s.get("fill", 0)) % (2 ** 31))
@@ -213,6 +239,57 @@ def equal(exp, got, d: Diff | None = None, path="$", numeric_mode=False) -> Diff
     d = Diff() if d is None else d
     from quantem.core.io.serialize import AutoSerialize
 
+    # ---- real library containers, compared through their public API
+    try:
+        from quantem.core.datastructures.dataset import Dataset as _QDataset
+        from quantem.core.datastructures.vector import Vector as _QVector
+    except Exception:  # pragma: no cover
+        _QDataset = _QVector = ()
+    if _QVector and isinstance(exp, _QVector):
+        if type(got) is not type(exp):
+            d.add("class", path, f"{type(exp).__name__}->{type(got).__name__}")
+            return d
+        try:
+            if tuple(got.shape) != tuple(exp.shape) or list(got.fields) != list(exp.fields) or list(
+                    got.units) != list(exp.units) or got.name != exp.name:
+                d.add("qvector_header", path, f"{exp.shape}/{exp.fields}/{exp.units}/{exp.name} -> "
+                      f"{got.shape}/{got.fields}/{got.units}/{got.name}")
+                return d
+            if type(got.shape) is not tuple or type(got.fields) is not list:
+                d.add("qvector_header_kind", path, f"{type(got.shape).__name__}/{type(got.fields).__name__}")
+            for idx in np.ndindex(*exp.shape):
+                a_ = exp[idx if len(idx) > 1 else idx[0]]
+                b_ = got[idx if len(idx) > 1 else idx[0]]
+                if (a_ is None) != (b_ is None):
+                    d.add("qvector_cell_unset", f"{path}{list(idx)}", f"{a_ is None}->{b_ is None}")
+                    return d
+                if a_ is not None:
+                    equal(a_, b_, d, f"{path}{list(idx)}")
+            equal(dict(exp.metadata), dict(got.metadata), d, f"{path}.metadata")
+            if not np.array_equal(np.asarray(exp.flatten()), np.asarray(got.flatten())):
+                d.add("qvector_flatten", path)
+        except Exception as e:
+            d.add("qvector_api_raised", path, repr(e))
+        return d
+    if _QDataset and isinstance(exp, _QDataset):
+        if type(got) is not type(exp):
+            d.add("class", path, f"{type(exp).__name__}->{type(got).__name__}")
+            return d
+        try:
+            equal(exp.array, got.array, d, f"{path}.array")
+            equal(np.asarray(exp.origin), np.asarray(got.origin), d, f"{path}.origin")
+            equal(np.asarray(exp.sampling), np.asarray(got.sampling), d, f"{path}.sampling")
+            if list(exp.units) != list(got.units) or exp.name != got.name or \
+                    exp.signal_units != got.signal_units:
+                d.add("qdataset_header", path, f"{exp.units}/{exp.name} -> {got.units}/{got.name}")
+            if got.ndim != exp.ndim or tuple(got.shape) != tuple(exp.shape):
+                d.add("qdataset_shape", path)
+            c_ = got.copy()   # the loaded object must be a working dataset
+            if type(c_) is not type(exp) or c_.array.tobytes() != exp.array.tobytes():
+                d.add("qdataset_copy", path)
+        except Exception as e:
+            d.add("qdataset_api_raised", path, repr(e))
+        return d
     # ---- AutoSerialize + nn.Module hybrids: state_dict, behaviour and plain attributes
     if isinstance(exp, AutoSerialize) and isinstance(exp, torch.nn.Module):
         if type(got) is not type(exp):
@@ -604,6 +681,17 @@ def gen_value(rng, opts, depth, budget):
         return {"k": "logger", "name": rng.pick(["qsim.a", "qsim.b"]), "level": rng.pick(
             [10, 20, 30])}
     if k == "obj":
+        if rng.chance(0.1):
+            if rng.chance(0.5):
+                nd_ = rng.pick([1, 2, 3])
+                return {"k": "qvector", "shape": [rng.pick([1, 2, 3]) for _ in range(nd_)],
+                        "nf": rng.pick([1, 2, 3]), "fill": rng.randrange(1000),
+                        "unset": rng.pick([0.0, 0.3, 1.0]), "meta": rng.chance(0.5)}
+            cls = rng.pick(["Dataset", "Dataset2d", "Dataset3d", "Dataset4dstem"])
+            nd_ = {"Dataset": rng.pick([1, 2, 5]), "Dataset2d": 2, "Dataset3d": 3, "Dataset4dstem": 4}[cls]
+            return {"k": "qdataset", "cls": cls, "shape": [rng.pick([1, 2, 3]) for _ in range(nd_)],
+                    "dtype": rng.pick(["float32", "float64", "int32", "complex64", "uint8"]),
+                    "fill": rng.randrange(1000)}
         return gen_obj(rng, opts, depth + 1, budget)
     raise ValueError(k)
 
